@@ -4,7 +4,7 @@
 # passes without it. Baseline tests are run separately (tools/seedbaseline.sh).
 export GOFLAGS=-mod=mod GOPROXY=off GOSUMDB=off GOTOOLCHAIN=local
 wt=$1; n=$2; pkg=$3; mod=${4:-.}
-if [ "$pkg" = "$mod" ]; then rel=.; else rel=$rel; fi
+if [ "$pkg" = "$mod" ]; then rel=.; elif [ "$mod" = "." ]; then rel=./$pkg; else rel=./${pkg#$mod/}; fi
 cd $wt || exit 2
 git checkout -q -- . 2>/dev/null; find . -name zz_contracts_verif.go -delete
 tn=$(grep -o 'func Test[A-Za-z0-9_]*' out/$n/demo_test.go | head -1 | sed 's/func //')
